@@ -28,6 +28,12 @@ def make_history(rng: random.Random, n: int, K: Sequence[int], kind: str) -> lis
     ops.append(["set_known", sorted(cur)])
     if rng.random() < 0.7:
         ops.append(["compute"])
+        if rng.random() < 0.3:
+            # bulk set right after a computation, without a reset (some already known, some new), then compute again
+            sub = rng.sample(ex, rng.randint(1, min(len(ex), 3)))
+            ops.append(["bulk_set", sorted(sub)])
+            cur.update(sub)
+            ops.append(["compute"])
     for _ in range(rng.randint(1, 3 * len(ex) if len(ex) < 8 else 16)):
         r = rng.random()
         m = rng.choice(ex)
